@@ -62,12 +62,31 @@ Print Assumptions retired_bit_stops_new_readers.
 
 Theorem monitor_flags_write_into_pinned_extent :
   forall pinned0 i s n t,
-  emon pinned0 (EWrite s n :: t) i = Some i <-> existsb (fun p => overlaps s n (fst p) (snd p)) pinned0 = true.
+  emon pinned0 (EWrite s n :: t) i = Some i <-> existsb (fun p => overlaps s n (fst p) (snd p)) pinned0 = true
+
+(* ... and it is exact over whole traces: it accepts iff no write of the trace overlaps a pin that
+   is open at the moment the write is issued *).
 Proof. exact emon_flags_overlap. Qed.
 Check monitor_flags_write_into_pinned_extent :
   forall pinned0 i s n t,
-  emon pinned0 (EWrite s n :: t) i = Some i <-> existsb (fun p => overlaps s n (fst p) (snd p)) pinned0 = true.
+  emon pinned0 (EWrite s n :: t) i = Some i <-> existsb (fun p => overlaps s n (fst p) (snd p)) pinned0 = true
+
+(* ... and it is exact over whole traces: it accepts iff no write of the trace overlaps a pin that
+   is open at the moment the write is issued *).
 Print Assumptions monitor_flags_write_into_pinned_extent.
+
+Theorem monitor_accepts_iff_no_write_into_an_open_pin :
+  forall evs pinned0 i,
+  emon pinned0 evs i = None <->
+  forall j s n, nth_error evs j = Some (EWrite s n) ->
+    existsb (fun p => overlaps s n (fst p) (snd p)) (pins_after pinned0 (firstn j evs)) = false.
+Proof. exact emon_none_iff_no_write_into_open_pin. Qed.
+Check monitor_accepts_iff_no_write_into_an_open_pin :
+  forall evs pinned0 i,
+  emon pinned0 evs i = None <->
+  forall j s n, nth_error evs j = Some (EWrite s n) ->
+    existsb (fun p => overlaps s n (fst p) (snd p)) (pins_after pinned0 (firstn j evs)) = false.
+Print Assumptions monitor_accepts_iff_no_write_into_an_open_pin.
 (* non-vacuity: a reader pinned before the retirer starts holds the markers back *)
 Example pinned_reader_delays_markers :
   let s := erun (einit 2) [Reader 0; Retirer; Retirer; Retirer; Reader 1; Reader 0; Retirer; Retirer] in
